@@ -65,11 +65,19 @@ func createStructDesc(rv reflect.Value) (*structDesc, error) {
 		return sd, nil
 	}
 	buildCached, buildLinked = buildCached[:0], buildLinked[:0]
+	// the build fails with an error, or with a panic out of the user code it runs
+	// (InitDefault, called to read the defaults): either way nothing of it may stay behind
+	built := false
+	defer func() {
+		if !built {
+			rollbackBuild()
+		}
+	}()
 	sd, err := newStructDescAndPrefetch(rt)
 	if err != nil {
-		rollbackBuild()
 		return nil, err
 	}
+	built = true
 	sds.Set(abiType, sd)
 	if rv.Kind() == reflect.Ptr {
 		sds.Set(rvTypePtr(rv), sd) // *struct and struct share the same structDesc
